@@ -237,8 +237,11 @@ func propC02(t veriflib.TB, c Case) {
 	hist := func() c02Hist {
 		return c02Hist{Finished: p.NFinished(), Requests: p.Farm.LogLen(), Elapsed: time.Since(t0).String()}
 	}
-	if hang := run.Feed(c.Seeds, len(c.Seeds)); hang != "" {
-		c02Die("C01/net", c, hist(), "seed(s) never reported finished: "+hang)
+	tFeed := time.Now()
+	hang := run.Feed(c.Seeds, len(c.Seeds))
+	crawl := time.Since(tFeed)
+	if hang != "" {
+		c02Die("C02/finish", c, hist(), "the run cannot be judged, seed(s) were never reported finished: "+hang)
 	}
 	if err := run.InsertErr(); err != nil {
 		run.StopWatched()
@@ -250,14 +253,14 @@ func propC02(t veriflib.TB, c Case) {
 			last, since = s, time.Now()
 		} else if time.Since(since) > c.Settings.Window() {
 			h := hist()
-			c02Die("C16/net", c, h, fmt.Sprintf("after all seeds were finished %d connection(s) never delivered their WARC records and %d request(s) are still being served: nothing moved for %s", p.WARCQueue(), p.Farm.Active(), c.Settings.Window()))
+			c02Die("C02/finish", c, h, fmt.Sprintf("after all seeds were finished %d connection(s) never delivered their WARC records and %d request(s) are still being served: nothing moved for %s", p.WARCQueue(), p.Farm.Active(), c.Settings.Window()))
 		}
 	}
 	all := p.Farm.Log("")
 	endSnap, endErr := p.SnapshotNow()
 	fins := p.Finishes()
 	if hang := run.StopWatched(); hang != "" {
-		c02Die("C03/net", c, hist(), hang)
+		c02Die("C02/finish", c, hist(), "after all seeds were finished and their records checked: "+hang)
 	}
 	fail := func(h c02Hist, f string, a ...any) {
 		h.Message = fmt.Sprintf(f, a...)
@@ -437,18 +440,20 @@ func propC02(t veriflib.TB, c Case) {
 	if lateTolerated > 0 {
 		t.Logf("tolerated %d late record(s) of the open finding %s", lateTolerated, c02KFLate)
 	}
-	c02Throughput(len(all), len(c.Seeds), time.Since(t0))
+	c02Throughput(len(all), len(c.Seeds), time.Since(t0), crawl)
 }
 
 var c02TP struct {
-	resp, seeds int
-	busy        time.Duration
+	resp, seeds, cases int
+	busy, crawl        time.Duration
 }
 
-func c02Throughput(resp, seeds int, d time.Duration) {
+func c02Throughput(resp, seeds int, d, crawl time.Duration) {
 	c02TP.resp += resp
 	c02TP.seeds += seeds
+	c02TP.cases++
 	c02TP.busy += d
+	c02TP.crawl += crawl
 }
 
 func specKey(f *Farm, e Entry) string {
@@ -507,14 +512,19 @@ func TestVerif_C02_Finish(t *testing.T) {
 	}
 	var rc Case
 	if veriflib.ReplayCase("C02/finish", &rc) {
-		propC02(t, rc)
+		// schedule-dependent failures (a record written a moment too late) need not show on the first run
+		for i := 0; i < 8; i++ {
+			propC02(t, rc)
+		}
 		return
 	} else if veriflib.Replaying() {
 		t.Skip()
 	}
 	defer func() {
 		if c02TP.busy > 0 {
-			fmt.Printf("throughput: %d responses, %d seeds in %s of lifecycle time = %.0f responses/s, %.1f seeds/s\n", c02TP.resp, c02TP.seeds, c02TP.busy.Round(time.Millisecond), float64(c02TP.resp)/c02TP.busy.Seconds(), float64(c02TP.seeds)/c02TP.busy.Seconds())
+			fmt.Printf("throughput: %d lifecycles, %d responses, %d seeds; crawling %s = %.0f responses/s, %.1f seeds/s; whole lifecycles (start, crawl incl. retry sleeps, quiescence, 1 s stop, parse) %s = %.0f responses/s, %.1f seeds/s\n",
+				c02TP.cases, c02TP.resp, c02TP.seeds, c02TP.crawl.Round(time.Millisecond), float64(c02TP.resp)/c02TP.crawl.Seconds(), float64(c02TP.seeds)/c02TP.crawl.Seconds(),
+				c02TP.busy.Round(time.Millisecond), float64(c02TP.resp)/c02TP.busy.Seconds(), float64(c02TP.seeds)/c02TP.busy.Seconds())
 		}
 	}()
 	rapid.Check(t, func(rt *rapid.T) {
